@@ -42,7 +42,33 @@ fn block_on<F: Future>(f: F) -> F::Output {
     }
 }
 
+/// What the mutex's 0.5 ms starvation test answers in this scenario. The wall-clock test would make
+/// the executions depend on timing (loom needs them to be deterministic), so every thread of every
+/// scenario installs the scripted oracle (hook H1).
+static STARVE: std::sync::atomic::AtomicBool = std::sync::atomic::AtomicBool::new(false);
+
+fn install_oracle() {
+    async_lock::__verif::set_starvation_oracle(Some(Box::new(|| STARVE.load(std::sync::atomic::Ordering::Relaxed))));
+}
+
+/// `loom::thread::spawn` + the oracle
+fn spawn<T: 'static>(f: impl FnOnce() -> T + 'static) -> thread::JoinHandle<T> {
+    thread::spawn(move || {
+        install_oracle();
+        f()
+    })
+}
+
 fn model(bound: usize, f: impl Fn() + Sync + Send + 'static) {
+    model_with(false, bound, f)
+}
+
+fn model_with(starve: bool, bound: usize, f: impl Fn() + Sync + Send + 'static) {
+    STARVE.store(starve, std::sync::atomic::Ordering::Relaxed);
+    let f = move || {
+        install_oracle();
+        f()
+    };
     let mut b = loom::model::Builder::new();
     // thorough tier: LOOMH_EXTRA_PREEMPTIONS=1
     let extra: usize = std::env::var("LOOMH_EXTRA_PREEMPTIONS").ok().and_then(|x| x.parse().ok()).unwrap_or(0);
@@ -67,7 +93,7 @@ fn c01_try_lock() {
         let hs: Vec<_> = (0..2)
             .map(|_| {
                 let m = m.clone();
-                thread::spawn(move || loop {
+                spawn(move || loop {
                     if let Some(g) = m.try_lock() {
                         bump(&g);
                         break;
@@ -88,7 +114,7 @@ fn c01_lock() {
     model(2, || {
         let m = Arc::new(Mutex::new(Cell::new(0)));
         let m2 = m.clone();
-        let h = thread::spawn(move || {
+        let h = spawn(move || {
             let g = block_on(m2.lock());
             bump(&g);
         });
@@ -108,7 +134,7 @@ fn c02_try() {
     model(3, || {
         let l = Arc::new(RwLock::new(Cell::new(0)));
         let l2 = l.clone();
-        let h = thread::spawn(move || loop {
+        let h = spawn(move || loop {
             if let Some(g) = l2.try_write() {
                 bump(&g);
                 break;
@@ -133,7 +159,7 @@ fn c02_upgrade() {
     model(3, || {
         let l = Arc::new(RwLock::new(Cell::new(0)));
         let l2 = l.clone();
-        let h = thread::spawn(move || loop {
+        let h = spawn(move || loop {
             if let Some(g) = l2.try_write() {
                 bump(&g);
                 break;
@@ -163,7 +189,7 @@ fn c02_async() {
     model(2, || {
         let l = Arc::new(RwLock::new(Cell::new(0)));
         let l2 = l.clone();
-        let h = thread::spawn(move || {
+        let h = spawn(move || {
             let g = block_on(l2.write());
             bump(&g);
         });
@@ -182,7 +208,7 @@ fn c11_downgrade() {
     model(3, || {
         let l = Arc::new(RwLock::new(Cell::new(0)));
         let l2 = l.clone();
-        let h = thread::spawn(move || {
+        let h = spawn(move || {
             for _ in 0..2 {
                 if let Some(g) = l2.try_write() {
                     bump(&g);
@@ -212,7 +238,7 @@ fn c11_downgrade_async() {
     model(3, || {
         let l = Arc::new(RwLock::new(Cell::new(0)));
         let l2 = l.clone();
-        let h = thread::spawn(move || {
+        let h = spawn(move || {
             let g = block_on(l2.write());
             bump(&g);
         });
@@ -231,7 +257,7 @@ fn c11_upgrade_async() {
     model(2, || {
         let l = Arc::new(RwLock::new(Cell::new(0)));
         let l2 = l.clone();
-        let h = thread::spawn(move || {
+        let h = spawn(move || {
             if let Some(r) = l2.try_read() {
                 let _ = peek(&r);
             }
@@ -254,7 +280,7 @@ fn c11_to_upgradable() {
     model(3, || {
         let l = Arc::new(RwLock::new(Cell::new(0)));
         let l2 = l.clone();
-        let h = thread::spawn(move || {
+        let h = spawn(move || {
             for _ in 0..2 {
                 if let Some(g) = l2.try_upgradable_read() {
                     let _ = peek(&g);
@@ -285,7 +311,7 @@ fn c03_add() {
     model(3, || {
         let s = Arc::new(Semaphore::new(1));
         let s2 = s.clone();
-        let h = thread::spawn(move || {
+        let h = spawn(move || {
             s2.add_permits(1);
         });
         let g = s.try_acquire();
@@ -312,7 +338,7 @@ fn c03_excl() {
         let hs: Vec<_> = (0..2)
             .map(|_| {
                 let (s, c) = (s.clone(), c.clone());
-                thread::spawn(move || loop {
+                spawn(move || loop {
                     if let Some(g) = s.try_acquire() {
                         bump(&c);
                         drop(g);
@@ -335,7 +361,7 @@ fn c03_async() {
         let s = Arc::new(Semaphore::new(1));
         let c = Arc::new(Cell::new(0));
         let (s2, c2) = (s.clone(), c.clone());
-        let h = thread::spawn(move || {
+        let h = spawn(move || {
             let g = block_on(s2.acquire());
             bump(&c2);
             drop(g);
@@ -358,7 +384,7 @@ fn c04_blocking() {
         let cell = Arc::new(OnceCell::<(usize, Cell)>::new());
         let runs = Arc::new(AtomicUsize::new(0));
         let (cell2, runs2) = (cell.clone(), runs.clone());
-        let h = thread::spawn(move || {
+        let h = spawn(move || {
             let v = cell2.get_or_init_blocking(|| {
                 runs2.fetch_add(1, Ordering::Relaxed);
                 (7, Cell::new(7))
@@ -382,7 +408,7 @@ fn c04_publish() {
     model(3, || {
         let cell = Arc::new(OnceCell::<(usize, Cell)>::new());
         let cell2 = cell.clone();
-        let h = thread::spawn(move || {
+        let h = spawn(move || {
             if let Some(v) = cell2.get() {
                 assert_eq!(v.0, peek(&v.1));
             }
@@ -404,7 +430,7 @@ fn c05_three() {
         let hs: Vec<_> = (0..2)
             .map(|_| {
                 let m = m.clone();
-                thread::spawn(move || {
+                spawn(move || {
                     let g = block_on(m.lock());
                     bump(&g);
                 })
@@ -426,12 +452,12 @@ fn c06_mix() {
     model(2, || {
         let l = Arc::new(RwLock::new(Cell::new(0)));
         let l1 = l.clone();
-        let h1 = thread::spawn(move || {
+        let h1 = spawn(move || {
             let g = block_on(l1.write());
             bump(&g);
         });
         let l2 = l.clone();
-        let h2 = thread::spawn(move || {
+        let h2 = spawn(move || {
             let g = block_on(l2.read());
             let _ = peek(&g);
         });
@@ -455,7 +481,7 @@ fn c07_three() {
         let hs: Vec<_> = (0..2)
             .map(|_| {
                 let (s, c) = (s.clone(), c.clone());
-                thread::spawn(move || {
+                spawn(move || {
                     let g = block_on(s.acquire());
                     bump(&c);
                     drop(g);
@@ -479,14 +505,14 @@ fn c08_handover() {
     model(2, || {
         let cell = Arc::new(OnceCell::<usize>::new());
         let c1 = cell.clone();
-        let h1 = thread::spawn(move || {
+        let h1 = spawn(move || {
             let r: Result<&usize, ()> = block_on(c1.get_or_try_init(|| async { Err(()) }));
             if let Ok(v) = r {
                 assert_eq!(*v, 3);
             }
         });
         let c2 = cell.clone();
-        let h2 = thread::spawn(move || {
+        let h2 = spawn(move || {
             assert_eq!(*block_on(c2.wait()), 3);
         });
         let v = block_on(cell.get_or_init(|| async { 3 }));
@@ -501,35 +527,30 @@ fn c09_barrier() {
     model(2, || {
         let b = Arc::new(Barrier::new(2));
         let b2 = b.clone();
-        let h = thread::spawn(move || block_on(b2.wait()).is_leader());
+        let h = spawn(move || block_on(b2.wait()).is_leader());
         let me = block_on(b.wait()).is_leader();
         let other = h.join().unwrap();
         assert!(me ^ other, "exactly one leader");
     });
 }
 
-/// the 0.5 ms starvation test answers "yes" at every evaluation point (hook H1): all waiters use
-/// the fair loop
-fn starve_always() {
-    async_lock::__verif::set_starvation_oracle(Some(Box::new(|| true)));
-}
+// in the `model_with(true, ..)` scenarios the 0.5 ms starvation test answers "yes" at every
+// evaluation point (hook H1): all waiters use the fair loop
 
 /// three lock().await, every waiter starved (fair loop)
 fn c05_starved() {
-    model(3, || {
+    model_with(true, 3, || {
         let m = Arc::new(Mutex::new(Cell::new(0)));
         let hs: Vec<_> = (0..2)
             .map(|_| {
                 let m = m.clone();
-                thread::spawn(move || {
-                    starve_always();
+                spawn(move || {
                     let g = block_on(m.lock());
                     bump(&g);
                 })
             })
             .collect();
         {
-            starve_always();
             let g = block_on(m.lock());
             bump(&g);
         }
@@ -542,14 +563,13 @@ fn c05_starved() {
 
 /// a holder and two starved waiters; the holder unlocks while they are inside their polls
 fn c05_starved_held() {
-    model(3, || {
+    model_with(true, 3, || {
         let m = Arc::new(Mutex::new(Cell::new(0)));
         let g = m.try_lock().unwrap();
         let hs: Vec<_> = (0..2)
             .map(|_| {
                 let m = m.clone();
-                thread::spawn(move || {
-                    starve_always();
+                spawn(move || {
                     let g = block_on(m.lock());
                     bump(&g);
                 })
@@ -567,14 +587,13 @@ fn c05_starved_held() {
 /// a holder that releases, barges in again with try_lock and releases again, against two waiters
 /// that turn starved as soon as they lose a race
 fn c05_barge() {
-    model(3, || {
+    model_with(true, 3, || {
         let m = Arc::new(Mutex::new(Cell::new(0)));
         let g = m.try_lock().unwrap();
         let hs: Vec<_> = (0..2)
             .map(|_| {
                 let m = m.clone();
-                thread::spawn(move || {
-                    starve_always();
+                spawn(move || {
                     let g = block_on(m.lock());
                     bump(&g);
                 })
@@ -598,7 +617,7 @@ fn c01_blocking() {
     model(2, || {
         let m = Arc::new(Mutex::new(Cell::new(0)));
         let m2 = m.clone();
-        let h = thread::spawn(move || {
+        let h = spawn(move || {
             let g = m2.lock_blocking();
             bump(&g);
         });
@@ -616,7 +635,7 @@ fn c02_blocking() {
     model(2, || {
         let l = Arc::new(RwLock::new(Cell::new(0)));
         let l2 = l.clone();
-        let h = thread::spawn(move || {
+        let h = spawn(move || {
             let g = l2.write_blocking();
             bump(&g);
         });
@@ -634,7 +653,7 @@ fn c11_blocking() {
     model(2, || {
         let l = Arc::new(RwLock::new(Cell::new(0)));
         let l2 = l.clone();
-        let h = thread::spawn(move || {
+        let h = spawn(move || {
             let g = l2.write_blocking();
             bump(&g);
         });
@@ -657,7 +676,7 @@ fn c03_blocking() {
         let s = Arc::new(Semaphore::new(1));
         let c = Arc::new(Cell::new(0));
         let (s2, c2) = (s.clone(), c.clone());
-        let h = thread::spawn(move || {
+        let h = spawn(move || {
             let g = s2.acquire_blocking();
             bump(&c2);
             drop(g);
@@ -677,7 +696,7 @@ fn c09_blocking() {
     model(2, || {
         let b = Arc::new(Barrier::new(2));
         let b2 = b.clone();
-        let h = thread::spawn(move || b2.wait_blocking().is_leader());
+        let h = spawn(move || b2.wait_blocking().is_leader());
         let me = b.wait_blocking().is_leader();
         let other = h.join().unwrap();
         assert!(me ^ other, "exactly one leader");
@@ -689,7 +708,7 @@ fn c08_blocking() {
     model(2, || {
         let cell = Arc::new(OnceCell::<usize>::new());
         let c2 = cell.clone();
-        let h = thread::spawn(move || *c2.wait_blocking());
+        let h = spawn(move || *c2.wait_blocking());
         let _ = cell.set_blocking(4);
         assert_eq!(h.join().unwrap(), 4);
     });
@@ -712,7 +731,7 @@ fn c10_mutex_cancel() {
         let m = Arc::new(Mutex::new(Cell::new(0)));
         let g = m.try_lock().unwrap();
         let m1 = m.clone();
-        let h1 = thread::spawn(move || {
+        let h1 = spawn(move || {
             let mut f = Box::pin(m1.lock());
             if let Poll::Ready(g) = poll_once(f.as_mut()) {
                 bump(&g);
@@ -720,7 +739,7 @@ fn c10_mutex_cancel() {
             // cancelled here if it was pending
         });
         let m2 = m.clone();
-        let h2 = thread::spawn(move || {
+        let h2 = spawn(move || {
             let g = block_on(m2.lock());
             bump(&g);
         });
@@ -738,14 +757,14 @@ fn c10_rw_cancel() {
         let l = Arc::new(RwLock::new(Cell::new(0)));
         let r = l.try_read().unwrap();
         let l1 = l.clone();
-        let h1 = thread::spawn(move || {
+        let h1 = spawn(move || {
             let mut f = Box::pin(l1.write());
             if let Poll::Ready(g) = poll_once(f.as_mut()) {
                 bump(&g);
             }
         });
         let l2 = l.clone();
-        let h2 = thread::spawn(move || {
+        let h2 = spawn(move || {
             let g = block_on(l2.read());
             let _ = peek(&g);
         });
@@ -762,12 +781,12 @@ fn c10_sem_cancel() {
         let s = Arc::new(Semaphore::new(1));
         let g = s.try_acquire().unwrap();
         let s1 = s.clone();
-        let h1 = thread::spawn(move || {
+        let h1 = spawn(move || {
             let mut f = Box::pin(s1.acquire());
             let _ = poll_once(f.as_mut());
         });
         let s2 = s.clone();
-        let h2 = thread::spawn(move || {
+        let h2 = spawn(move || {
             let _g = block_on(s2.acquire());
         });
         drop(g);
